@@ -1,4 +1,5 @@
 import JsonPathVerif.Compare
+import JsonPathVerif.ParserRG
 /-! # C04 – filter comparisons follow the RFC 9535 comparison rules -/
 namespace JP.C04
 open JP
@@ -42,5 +43,13 @@ theorem str_trichotomy (a b : Str) :
 theorem lt_across_types (a b : Json) (h : ∀ x y, ¬ (a = .num x ∧ b = .num y)) (h' : ∀ x y, ¬ (a = .str x ∧ b = .str y)) :
     cmpData .lt (.value a) (.value b) = false := by
   cases a <;> cases b <;> simp_all [cmpData, ltData, ltJson]
+
+/-- for ALL strings: every number literal of a query the parser accepts is a number the crate can hold – an integer in the I-JSON range
+or a decimal that rounds to a FINITE double (`rgLit`, part of `rgSegs`). A literal such as `1e400`, which used to be read as infinity and
+compared as `null` (D30), is rejected; so comparisons are only ever evaluated on operands inside the domain of the theorems above -/
+theorem C04_literals_representable (s : Str) (q : List Segment) (h : parseJsonPath s = .ok q) : rgSegs q = true :=
+  parse_intsInRange s q h
+example : rgLit (.float (10 ^ 400) 1) = false ∧ rgLit (.float 1 0) = false ∧ rgLit (.float 3 2) = true ∧ rgLit (.int 9007199254740992) = false ∧
+    rgSegs [.selector (.filter (.atom (.cmp .eq (.sq false []) (.lit (.float (10 ^ 400) 1)))))] = false := by decide +kernel
 
 end JP.C04
